@@ -38,9 +38,14 @@ def code_blocks(hist):
         fusion.add_einsum(program)
     blocks = [list(b) for b in fusion.get_blocks()]
     dump_blocks = None
-    if not any(f.get("empty") for f in hist) and all(f["comps"] for f in hist):
+    try:
+        # the whole pipeline; it asserts (no program) when a compute unit is bound to an operation the Einsum lacks
         text = str(HiFiber(Einsum.from_str(y), Mapping.from_str(y), Architecture.from_str(y),
                            Bindings.from_str(y), Format.from_str(y)))
+    except AssertionError:
+        text = None
+    if text is not None:
+        dump_blocks = "missing"
         for node in ast.parse(text).body:
             if isinstance(node, ast.Assign) and ast.unparse(node.targets[0]) == "metrics['blocks']":
                 dump_blocks = ast.literal_eval(node.value)
@@ -119,7 +124,7 @@ def run(ctx):
     exprs = []
     for h, b, d in rows:
         exprs.append("(let h := %s in show_blocks (get_blocks (frun h)) ++ \"#\" ++ show_bool (legal_blocks_b h %s) ++ \"#\" ++ show_bool (legal_blocks_b h %s))"
-                     % (coq_hist(h), coq_blocks(b), coq_blocks(d if d is not None else b)))
+                     % (coq_hist(h), coq_blocks(b), coq_blocks(d if isinstance(d, list) else b)))
     res = vlib.coq_eval_lines("c13", ["TV.Model.Fusion", "TV.Model.Show"], "", exprs)
     n_dis = 0
     fused_pairs = 0
@@ -128,6 +133,10 @@ def run(ctx):
     seen = set()
     for (h, b, d), r in zip(rows, res):
         model, ok_code, ok_dump = r.split("#")
+        if d == "missing":
+            ctx.violation({"kind": "dump-blocks-missing"}, "the emitted dump of a %d-Einsum specification has no metrics[\"blocks\"] assignment (history %s)" % (len(h), h),
+                          {"history": h, "yaml": sg.to_yaml(h), "code_blocks": b})
+            continue
         key = {"kind": "illegal-blocks"}
         if len(b) < len(h):
             fused_pairs += 1
@@ -173,7 +182,7 @@ def run(ctx):
 def replay(ctx, rep):
     h = rep["replay"]["history"]
     b, d = code_blocks(h)
-    ok = py_legal(h, b) and (d is None or d == b)
+    ok = py_legal(h, b) and (d is None or d == b)   # d == "missing" fails here too
     print("history:", h)
     print("code blocks:", b, "dump blocks:", d, "legal:", ok)
     if not ok:
